@@ -9,6 +9,8 @@ reads (DONE is on the wire before the status is awaited); push handles each (loc
 each stream; directory expansion joins names with the directory; the callback is contained and sees len(chunk);
 every method called on the source stream is supported by every kind of stream that can reach it (DUCK).
 Not decided: file-system behaviour.
+Always-transfers: push hands every file of the list to _push (an early return is accepted only where the list is empty), _push returns normally
+only after SEND .. DONE, and no handler around _open / _push completes normally.
 """
 import ast
 from ..terms import crepr
